@@ -43,3 +43,5 @@ pub fn peer_info(peer: &KademliaPeer) -> (PeerId, [u8; 32], ConnectionType, usiz
 pub fn set_connection(entry: &mut KademliaPeer, connection: ConnectionType) {
     entry.connection = connection;
 }
+
+pub use super::query::VerifQueryState;
